@@ -382,6 +382,38 @@ def canonical_blocks(tree):
     def scope_names(fn):
         return [x for x in ast.walk(fn) if isinstance(x, ast.Name)]
 
+    fn_scalars_of = {}
+
+    def scalars(fn):
+        """locals all of whose definitions are numeric literals or `x = x op e` / `x op= e` updates of themselves"""
+        defs = {}
+        for n in ast.walk(fn):
+            if isinstance(n, ast.Assign):
+                for t in n.targets:
+                    for x in ast.walk(t):
+                        if isinstance(x, ast.Name):
+                            defs.setdefault(x.id, []).append(n.value if (len(n.targets) == 1 and t is x) else None)
+            elif isinstance(n, (ast.For, ast.comprehension)):
+                for x in ast.walk(n.target):
+                    if isinstance(x, ast.Name):
+                        defs.setdefault(x.id, []).append(None)
+            elif isinstance(n, (ast.With, ast.ExceptHandler, ast.NamedExpr)):
+                for x in ast.walk(n):
+                    if isinstance(x, ast.Name) and isinstance(x.ctx, ast.Store):
+                        defs.setdefault(x.id, []).append(None)
+        params = {a.arg for a in fn.args.posonlyargs + fn.args.args + fn.args.kwonlyargs}
+        out = set()
+        for nm, vals in defs.items():
+            if nm in params or any(v is None for v in vals):
+                continue
+            lits = [v for v in vals if isinstance(v, ast.Constant) and isinstance(v.value, (int, float)) and not isinstance(v.value, bool)]
+            selfs = [v for v in vals if isinstance(v, ast.BinOp) and isinstance(v.left, ast.Name) and v.left.id == nm]
+            if lits and len(lits) + len(selfs) == len(vals):
+                out.add(nm)
+        return out
+
+    fn_scalars = set()
+
     def rewrite(block, fn_names):
         out = []
         i = 0
@@ -437,6 +469,17 @@ def canonical_blocks(tree):
                     block[i + 1].test = st.value
                     block = block[:i] + block[i + 1:]
                     continue
+            # for i, x in enumerate(S): ..  ->  for x in S: ..           (i read nowhere in the function)
+            if isinstance(st, ast.For) and isinstance(st.target, ast.Tuple) and len(st.target.elts) == 2 and isinstance(st.target.elts[0], ast.Name) \
+                    and isinstance(st.iter, ast.Call) and isinstance(st.iter.func, ast.Name) and st.iter.func.id == 'enumerate' \
+                    and len(st.iter.args) == 1 and not st.iter.keywords and fn_names is not None \
+                    and sum(1 for x in fn_names if x.id == st.target.elts[0].id) == 1:
+                st.target = st.target.elts[1]
+                st.iter = st.iter.args[0]
+            # x = x op e  ->  x op= e      (x a local that only ever holds python numbers: immutable, both forms rebind)
+            if isinstance(st, ast.Assign) and len(st.targets) == 1 and isinstance(st.targets[0], ast.Name) and isinstance(st.value, ast.BinOp) \
+                    and isinstance(st.value.left, ast.Name) and st.value.left.id == st.targets[0].id and fn_scalars and st.targets[0].id in fn_scalars:
+                block[i] = st = ast.copy_location(ast.AugAssign(target=ast.Name(id=st.targets[0].id, ctx=ast.Store()), op=st.value.op, value=st.value.right), st)
             # for m in S: (a, b) = m; ..   ->  for (a, b) in S: ..      (m read nowhere else in the function)
             if isinstance(st, ast.For) and isinstance(st.target, ast.Name) and st.body and fn_names is not None:
                 f0 = st.body[0]
@@ -462,13 +505,17 @@ def canonical_blocks(tree):
         return out
 
     def walk(n, fn_names):
+        nonlocal fn_scalars
+        saved = fn_scalars
         if isinstance(n, (ast.FunctionDef, ast.AsyncFunctionDef)):
             fn_names = scope_names(n)
+            fn_scalars = scalars(n)
         for owner, f, b in list(_stmt_blocks(n)):
             nb = rewrite(b, fn_names)
             setattr(owner, f, nb)
             for st in nb:
                 walk(st, fn_names)
+        fn_scalars = saved
     walk(tree, None)
 
 
